@@ -212,6 +212,10 @@ def r5_supported_only(ctx, rule):
         ctx.ok(rule, q, 'count_base_structures incremented iff supported; raw list always', facts)
 
 
+def _is_set_expr(v):
+    return isinstance(v, (ast.Set, ast.SetComp)) or (isinstance(v, ast.Call) and call_name(v) in ('set', 'frozenset'))
+
+
 def r6_determinism(ctx, rule):
     cg = ctx.cg
     closure = ctx.resolver.closure(['trainer.py'])
@@ -219,6 +223,7 @@ def r6_determinism(ctx, rule):
     par = cg.reach([RT], closure)
     bad = False
     ncalls = 0
+    set_returning = set()
     for q in sorted(par):
         ctx.stats['functions'].add(q)
         fn = ctx.repo.fn(q)
@@ -246,9 +251,44 @@ def r6_determinism(ctx, rule):
                     bad = True
                     ctx.bad(rule, q, 'iterates a set: ' + U(it)[:50], 'iteration order of a set of strings varies between runs '
                             '(hash randomisation) and can reach the written files', None, it)
+            if isinstance(n, ast.Return) and n.value is not None and (_is_set_expr(n.value) or (
+                    isinstance(n.value, ast.Name) and any(v is not None and _is_set_expr(v) for s_, v in stores_in(fn).get(n.value.id, [])))):
+                set_returning.add(q)
             if isinstance(n, ast.Call) and call_name(n) in ('os.listdir', 'glob.glob', 'os.scandir'):
                 bad = True
                 ctx.bad(rule, q, 'directory listing ' + U(n)[:40], 'listing order is not deterministic', None, n)
+    # second pass: iteration over values that are sets (set displays / set() / results of set-returning functions)
+    for q in sorted(par):
+        fn = ctx.repo.fn(q)
+        setnames = set()
+        for nm, lst in stores_in(fn).items():
+            for s_, v in lst:
+                if v is None:
+                    continue
+                if _is_set_expr(v):
+                    setnames.add(nm)
+                if isinstance(v, ast.Call):
+                    tg = ctx.resolver.resolve_call(q, v, closure)
+                    if any(t in set_returning for t in tg):
+                        setnames.add(nm)
+        for n in walk_local(fn):
+            its = []
+            if isinstance(n, (ast.For, ast.comprehension)):
+                its.append(n.iter)
+            if isinstance(n, ast.Call) and call_name(n) in ('list', 'tuple', 'enumerate', 'iter', 'next') and n.args:
+                its.append(n.args[0])
+            if isinstance(n, ast.Call) and isinstance(n.func, ast.Attribute) and n.func.attr == 'join' and n.args:
+                its.append(n.args[0])
+            for it in its:
+                hit = (isinstance(it, ast.Name) and it.id in setnames)
+                if isinstance(it, ast.Call):
+                    tg = ctx.resolver.resolve_call(q, it, closure)
+                    hit = hit or any(t in set_returning for t in tg)
+                if hit:
+                    bad = True
+                    ctx.bad(rule, q, 'iterates a set: ' + U(it)[:50], 'the iteration order of a set of strings changes from one '
+                            'interpreter process to the next (hash randomisation); when the order decides a result (first match '
+                            'wins, output order) the same input trains different rulesets', None, it)
     ctx.stats['call_sites'] += ncalls
     if ctx.floor(rule, RT, len(par), 25, 'functions reachable from run_trainer') and not bad:
         ctx.ok(rule, RT, 'the only nondeterminism source reachable from run_trainer (%d functions) is uuid4() stored as the '
@@ -257,7 +297,8 @@ def r6_determinism(ctx, rule):
 
 def rules(tier):
     return [('C06.R1', r1_relative_frequency), ('C06.R2', r2_all_items_written), ('C06.R3', c07.r6_wipe_before_write),
-            ('C06.R4', r4_coverage_algebra), ('C06.R5', r5_supported_only), ('C06.R6', r6_determinism)]
+            ('C06.R4', r4_coverage_algebra), ('C06.R5', r5_supported_only), ('C06.R6', r6_determinism),
+            ('C06.R7', c07.r1b_validate_final_value)]
 
 
 META = {
